@@ -4,7 +4,9 @@ import Driver.C03
 import Driver.C06
 import Driver.C11
 import Driver.C12
+import Driver.C15
 import Driver.C16
+import Driver.C20
 import Driver.Smb
 open Driver
 
@@ -13,7 +15,9 @@ def allEntries : List Entry :=
   ++ Driver.C06.entries
   ++ Driver.C11.entries
   ++ Driver.C12.entries
+  ++ Driver.C15.entries
   ++ Driver.C16.entries
+  ++ Driver.C20.entries
   ++ Driver.Smb.entries
 
 def table : Std.HashMap String Handler :=
